@@ -10,11 +10,11 @@ pub fn run(a: &Args) {
     let n_drainers = a.usize("drainers");
     let n_stoppers = a.usize("stoppers");
     let status0 = a.u64("status0") as u8;
-    let schedule: Vec<usize> = a.list_u128("schedule").into_iter().map(|x| x as usize).collect();
+    let schedule: Vec<(usize, String)> = a.labelled_schedule("schedule");
     let threads = n_senders + n_drainers + n_stoppers;
     let mut det = mbx::detached(status0);
     let h = det.handle();
-    vh::install_schedule(schedule, threads);
+    vh::install_labelled_schedule(schedule, threads);
     let mut joins = Vec::new();
     for i in 0..n_senders {
         let h = h.clone();
